@@ -74,6 +74,7 @@ static void judge_ledger(const Plan& p, const OpResult& o, std::vector<Violation
     if (r.use_twice) vs.push_back(make_violation("C14", "value_consumed_twice", "one value was handed to two functor calls" + counts + "; " + brief, p));
     if (r.use_moved_from) vs.push_back(make_violation("C14", "moved_from_value_handed_to_functor", "a functor received a moved-from value" + counts + "; " + brief, p));
     if (r.use_dead) vs.push_back(make_violation("C14", "destroyed_value_used", "a destroyed value was used" + counts + "; " + brief, p));
+    if (r.arg_lvalue) vs.push_back(make_violation("C14", "argument_not_movable", "a functor received " + std::to_string(r.arg_lvalue) + " value(s) as lvalues: a by-value parameter would copy them, a move-only value type would not compile" + counts + "; " + brief, p));
     if (r.copy_in_lib) vs.push_back(make_violation("C14", "value_copied", "the library copied a semantic value " + std::to_string(r.copy_in_lib) + "x instead of moving it" + counts + "; " + brief, p));
     bool exceptional = o.out.exc != 0;
     if (!exceptional && r.live_after != 0)
